@@ -61,6 +61,8 @@ async fn scenario(role: Role, rng: &mut Rng, ch: &mut dyn Choose, long_completed
     let mut largest_pkt: u64 = 0;
     let mut wire_seen = 0usize;
     let mut payload_lens: Vec<usize> = Vec::new();
+    let mut ctl_id: u16 = 30_000;
+    let mut ctl_sent = 0usize;
 
     // v5 receive maximum semantics: at most `limit` unacknowledged QoS 1/2 publishes (0 = no limit)
     let enforce_rm = v5 && limit > 0;
@@ -193,6 +195,17 @@ async fn scenario(role: Role, rng: &mut Rng, ch: &mut dyn Choose, long_completed
             app.proto_plans.borrow_mut().push_back(ProtoPlan { gated: false, answer: ProtoAnswer::Ack });
             c.peer.send(&R::PingReq);
         }
+        // control packets whose size is around the byte limit, behind a protocol handler that may
+        // still be busy (they are buffered and count towards the bytes in flight)
+        if rng.chance(1, 5) && role.is_server() && !long_completed {
+            for _ in 0..1 + rng.usize(2) {
+                ctl_id += 1;
+                let flen = *rng.pick(&[1usize, 20, 70, 200]);
+                app.proto_plans.borrow_mut().push_back(ProtoPlan { gated: ch.chance(1, 2), answer: ProtoAnswer::Ack });
+                c.peer.send(&R::Subscribe { pid: ctl_id, props: vec![], filters: vec![("s/".to_string() + &"f".repeat(flen), 0)] });
+                ctl_sent += 1;
+            }
+        }
         if ch.chance(1, 2) {
             c.settle().await;
             if c.peer.unread_by_endpoint() > 0 {
@@ -225,7 +238,7 @@ async fn scenario(role: Role, rng: &mut Rng, ch: &mut dyn Choose, long_completed
     }
     // ---- release everything in random order; every packet must be handled
     for _ in 0..200 {
-        let gates: Vec<(GateKind, u32)> = app.pending_gates().into_iter().filter(|g| g.0 == GateKind::Pub).collect();
+        let gates: Vec<(GateKind, u32)> = app.pending_gates().into_iter().filter(|g| matches!(g.0, GateKind::Pub | GateKind::Proto)).collect();
         if gates.is_empty() {
             break;
         }
@@ -272,6 +285,14 @@ async fn scenario(role: Role, rng: &mut Rng, ch: &mut dyn Choose, long_completed
         }
     }
     // (c) nothing is left unhandled
+    let ctl_handled = app.count(|e| matches!(e, Ev::ProtoExit { .. })) ;
+    let ctl_entered = app.count(|e| matches!(e, Ev::ProtoEnter { kind: "subscribe", .. }));
+    if stops.is_empty() && !c.done() && ctl_entered != ctl_sent {
+        o.violations.push((
+            format!("control packets the peer sent were never handled although every handler completed ({ctl_entered} of {ctl_sent})"),
+            format!("max_receive {limit}, max_receive_size {size_limit}, protocol handler results {ctl_handled}, unread bytes at the peer side {}", c.peer.unread_by_endpoint()),
+        ));
+    }
     if stops.is_empty() && !c.done() {
         if o.handled != o.sent {
             o.violations.push((
